@@ -17,12 +17,23 @@ from .scalars import R, C, SB
 _SIMP = dict(som=True, arith_lhs=True, hoist_mul=False)
 
 
+_SIMP_TACTIC = None
+SIMP_TIMEOUT_MS = 4000
+
+
 def _simp_zero(N):
+    """True iff z3's simplifier normalises N (sum-of-monomials) to the numeral 0.  Runs as a tactic under
+    try-for, because the monomial expansion of a large product has no other time limit."""
+    global _SIMP_TACTIC
+    if _SIMP_TACTIC is None:
+        _SIMP_TACTIC = z3.TryFor(z3.With("simplify", som=True), SIMP_TIMEOUT_MS)
     try:
-        s = z3.simplify(N, som=True)
+        g = z3.Goal()
+        g.add(N != 0)
+        res = _SIMP_TACTIC(g)
     except z3.Z3Exception:
         return False
-    return z3.is_rational_value(s) and s.as_fraction() == 0
+    return len(res) == 1 and res[0].inconsistent()
 
 
 def _diff_num(a, b):
